@@ -131,6 +131,31 @@ def main(tier, seed, replay=None):
                 if not np.isclose(float(a), float(b), rtol=1e-4, atol=1e-6):
                     rep.violation(dict(kind="completion-of-a-row-depends-on-the-batch-it-is-evaluated-in", circuit=tab.brief(),
                                        row=sorted(rows[j].items()), in_batch=Y[j].tolist(), alone=y1.tolist()), True)
+        # ... nor how the batch is stored: column-major, a strided view of a wider array, a read-only buffer, float64.  Without
+        # inplace the result is a new array: the caller's storage is neither written nor returned
+        big = np.full((X.shape[0], 2 * X.shape[1] + 1), 7.0, dtype=X.dtype); big[:, 1::2] = X
+        ro = X.copy(); ro.setflags(write=False)
+        for lay, Xa in (("F-order", np.asfortranarray(X)), ("strided-view", big[:, 1::2]), ("read-only", ro), ("float64", X.astype(np.float64)),
+                        ("transpose-of-a-transpose", np.ascontiguousarray(X.T).T)):
+            Xa0 = np.array(Xa, copy=True)
+            try:
+                Ya = mpe(root, Xa)
+                pb = None
+                if np.shares_memory(Ya, Xa) or not np.array_equal(np.asarray(Xa), Xa0, equal_nan=True):
+                    pb = "the caller's storage was written or returned although inplace=False"
+                elif Ya.shape != Y.shape or not np.array_equal(np.isnan(Ya), np.isnan(Y)):
+                    pb = "shape / filled cells differ from the row-major float32 batch"
+                elif not np.array_equal(np.asarray(Ya, dtype=np.float64), Y.astype(np.float64)):
+                    a = _ll(root, np.asarray(Ya, dtype=np.float32)).reshape(-1); b = _ll(root, Y).reshape(-1)
+                    if not np.allclose(a, b, rtol=1e-4, atol=1e-6):
+                        pb = "completions differ (in value) from the row-major float32 batch"
+            except Exception as e:
+                pb = f"raised {type(e).__name__}: {e}"
+            if pb:
+                nlay = dist.get("layout_viol", 0); dist["layout_viol"] = nlay + 1
+                if nlay < 3:
+                    rep.violation(dict(kind="completion-depends-on-how-the-batch-is-stored", layout=lay, problem=pb, circuit=tab.brief(),
+                                       batch=[[None if np.isnan(t) else float(t) for t in r] for r in X[:6]]), True)
         X2 = X.copy(); Y2 = mpe(root, X2, inplace=True)
         if Y2 is not X2 or not np.array_equal(Y2, Y, equal_nan=True):
             rep.violation(dict(kind="inplace-contract", circuit=tab.brief()), True)
